@@ -3,8 +3,8 @@
 import json, os
 HERE = os.path.dirname(os.path.dirname(os.path.abspath(__file__)))
 CHECKS = {
- "C19": ("Coq: exhaustive vm_compute theorem on the function regenerated from output.py (all 8760 hours) + unbounded theorems (monotone, Lipschitz, month ends) on the reference conversion; exact Fraction correspondence with the real code",
-         "theorems are about exact rationals; the generated hours_to_month is tied to the reference by computation on samples, not by an unbounded proof; CSV writers observed on real runs", "6 C19"),
+ "C19": ("Coq: on the functions REGENERATED from output.py — ghe_time_convert labels all 8760 hours correctly (lifted exhaustive sweep); hours_to_month equals the calendar conversion for EVERY rational hour count, is monotone, 1/672-Lipschitz and integral at month ends; exact Fraction correspondence with the real code",
+         "theorems are about exact rationals; the float code is compared on this run's points; CSV writers observed on real runs", "6 C19"),
 }
 CHECKS.update({
  "C01": ("Coq: C01_feasible for every excess oracle / candidate list / cap / policy (search model + solve_root model, leaf expressions regenerated from the source), cost_spec on the regenerated BaseGHE.cost; exact correspondence of the model with the real Bisection1D/2D/ZD code on ~2.4k stub-oracle searches per run; re-simulation of real designs",
